@@ -10,7 +10,7 @@ def run(run, tier):
         run.obligation(f"idempotent.{name}", "discharged" if ok else "violated", detail or "parse_schema(parsed) is parsed", paths=1)
         if not ok:
             run.violation(f"idempotent.{name}", f"idempotent:{name}", detail,
-                          "import sys\nsys.path[:0]=['/verif','/repo']\nfrom props.l12 import ob_idempotent\n"
+                          "import sys, os\nsys.path[:0]=[os.environ.get('VF_ROOT','/verif'), os.environ.get('VF_REPO','/repo')]\nfrom props.l12 import ob_idempotent\n"
                           f"ok, d = ob_idempotent({name!r})\nprint('REPRODUCED' if not ok else 'ok', d)\nsys.exit(0 if ok else 1)\n")
     hs = l12.harnesses(tier, run.seed)
     ch.run_harnesses(run, "C12", hs, timeout=150 if tier == "quick" else 500)
